@@ -798,6 +798,27 @@ class FnItem:
         for extra in sp.get("extra_rewrites", []):
             body, h = extra(body)
             hits[extra.__name__] = h
+        if sp.get("ret_iter"):
+            # R23: return-position `impl Iterator<Item = ..>` -> the prelude's stand-in iterator type (named by ret_iter),
+            # whose abstract content is the sequence of items it will yield
+            m = re.search(r"->\s*impl\s+(?:::std::iter::)?Iterator\s*<", sig)
+            if not m:
+                raise Undecided("%s::%s: no `-> impl Iterator<..>` return type" % (self.rel, self.name))
+            stoks, smatch = _toks(sig)
+            end = len(sig)
+            depth = 0
+            for t in stoks:
+                if t.start < m.end():
+                    continue
+                if t.text in ("<", "(", "["):
+                    depth += 1
+                elif t.text in (">", ")", "]", ">>"):
+                    depth -= len(t.text)
+                    if depth < 0:
+                        end = t.end
+                        break
+            sig = sig[:m.start()] + "-> " + sp["ret_iter"] + " " + sig[end:]
+            hits["R23"] = 1
         # constructs this Verus models imprecisely (sound, but a proof that depends on them fails for no semantic reason):
         # a failed obligation in a function that contains one is reported as UNDECIDED, never as a violation
         self.imprecise = []
